@@ -202,6 +202,22 @@ def gen_args(fn, rng):
     T = rand_se3(rng, 3.0)
     V = np.array([rng.uniform(-2, 2) for _ in range(6)])
     cls = "n=%d" % n
+    if fn in ("MatrixLog3", "MatrixLog6", "MatrixExp3", "MatrixExp6", "CartesianTrajectory", "ScrewTrajectory") and rng.random() < 0.2:
+        # a rotation of 1e-9 .. 1e-5 rad, around the library's 1e-6 'near zero' cut-offs: port and reference must take the
+        # same branch there
+        ang = 10 ** rng.uniform(-9, -5)
+        ax = w / np.linalg.norm(w)
+        tw = np.concatenate([ax * ang, [rng.uniform(-2, 2) for _ in range(3)]])
+        Tt = rf.se3_exp(tw)
+        if fn == "MatrixLog3":
+            return "tiny", [Tt[:3, :3]]
+        if fn == "MatrixLog6":
+            return "tiny", [Tt]
+        if fn == "MatrixExp3":
+            return "tiny", [rf.hat3(ax * ang)]
+        if fn == "MatrixExp6":
+            return "tiny", [rf.hat6(tw)]
+        return "tiny|N=%d|method=%d" % (N, method), [T, T @ Tt, rng.uniform(0.5, 5), N, method]
     if fn in ("MatrixLog3", "MatrixLog6") and rng.random() < 0.35:
         H = half_turn(rng)
         return "half-turn", [H[:3, :3] if fn == "MatrixLog3" else H]
